@@ -121,6 +121,8 @@ class ResultInterp(Interp):
             return Tagged(name, args, kwargs)
         if name in REDUCER_FUNCS or name in ("max", "min", "sum", "len", "math.sqrt", "math.fsum", "statistics.pstdev", "statistics.stdev", "statistics.mean", "statistics.fmean"):
             a = [tuple(x) if isinstance(x, list) else x for x in args]
+            if name in ("numpy.float64", "numpy.float32") and a and a[0] is None:
+                return float("nan")  # numpy turns None into nan
             if name in ("numpy.asarray", "numpy.array", "numpy.float64", "float") and a:
                 return a[0]
             return Tagged(name, a, {k: v for k, v in kwargs.items() if k != "dtype"})
@@ -263,7 +265,17 @@ def metric_objs(prog: Program, names=("DSC", "IOU", "ASSD", "RVD", "clDSC")) -> 
     return out
 
 
-def build_zero_tp_handler(prog: Program, tag: str, given: dict[str, bool], default: bool) -> tuple[Optional[Obj], Outcome]:
+class NoneResult:
+    """An edge-case result whose configured value is Python None (EdgeCaseResult.NONE)."""
+
+    value = None
+    name = "NONE"
+
+    def __repr__(self):
+        return "EdgeCaseResult.NONE"
+
+
+def build_zero_tp_handler(prog: Program, tag: str, given: dict[str, bool], default: bool, none_values: bool = False) -> tuple[Optional[Obj], Outcome]:
     """Run MetricZeroTPEdgeCaseHandling.__init__ abstractly.  `given[scenario]`: whether that
     scenario's parameter is passed (else None); `default`: whether default_result is passed."""
     cls = prog.cls("utils.edge_case_handling:MetricZeroTPEdgeCaseHandling")
@@ -275,7 +287,7 @@ def build_zero_tp_handler(prog: Program, tag: str, given: dict[str, bool], defau
     for sc, pn in PARAM_OF_SCENARIO.items():
         if pn not in pnames:
             raise AnchorMissing(f"MetricZeroTPEdgeCaseHandling.__init__ has no parameter {pn}")
-        args[pn] = Sym(f"{tag}.{sc}") if given.get(sc) else None
+        args[pn] = (NoneResult() if none_values else Sym(f"{tag}.{sc}")) if given.get(sc) else None
     if "default_result" not in pnames:
         raise AnchorMissing("MetricZeroTPEdgeCaseHandling.__init__ has no parameter default_result")
     args["default_result"] = Sym(f"{tag}.DEFAULT") if default else None
@@ -301,7 +313,7 @@ def call_method(prog: Program, obj: Obj, meth: str, args: dict, metrics=None, no
     return outs, its
 
 
-def build_edge_case_handler(prog: Program, metrics: list[Obj]) -> tuple[Obj, dict]:
+def build_edge_case_handler(prog: Program, metrics: list[Obj], none_values: bool = False) -> tuple[Obj, dict]:
     """EdgeCaseHandler whose per-metric handlers carry distinct symbolic results
     H_<metric>.<SCENARIO>, built by running the constructors."""
     cls = prog.cls("utils.edge_case_handling:EdgeCaseHandler")
@@ -309,7 +321,7 @@ def build_edge_case_handler(prog: Program, metrics: list[Obj]) -> tuple[Obj, dic
     handlers = {}
     for m in metrics:
         name = m.attrs["_name_"]
-        h, out = build_zero_tp_handler(prog, f"H_{name}", {s: True for s in SCENARIOS}, default=False)
+        h, out = build_zero_tp_handler(prog, f"H_{name}", {s: True for s in SCENARIOS}, default=False, none_values=none_values)
         if h is None:
             raise Undecided(f"MetricZeroTPEdgeCaseHandling.__init__ did not complete: {out.kind} {out.exc}")
         handlers[m] = h
